@@ -253,7 +253,8 @@ Step(o, ev, C) ==
 
       bothEnded == ended2["S"] /\ ended2["R"]
       justEnded == bothEnded /\ ~(o.ended["S"] /\ o.ended["R"])
-      nfaults2 == o.nfaults + (IF isFault THEN 1 ELSE 0)
+      \* a direction going dark for good is beyond any bounded number of faults
+      nfaults2 == o.nfaults + (IF isFault THEN 1 ELSE 0) + (IF ev.a = "Blackout" THEN C.limit ELSE 0)
       suspTime2 == Min2(o.suspTime + (IF \E e \in Ents : o.susp[e] THEN dt ELSE 0), Bound(C) + 1)
       hypBounded == /\ isAck /\ nfaults2 < C.limit /\ o.ncancel = 0 /\ ~cancelNow /\ ~o.adversary
                     /\ suspTime2 < Min2(ToAck(C), Min2(ToNak(C), ToInact(C)))
